@@ -113,6 +113,8 @@ pub enum Fault {
     Flip { comp: Comp, bit: usize },
     Truncate { k: usize },
     Extend { k: usize, fill: u8 },
+    /// a whole component overwritten with one byte value (rare *values*: all-zero tag, all-0xff nonce ...)
+    Fill { comp: Comp, value: u8 },
     /// C04 only: the whole wire content replaced (zeros / 0xff / random)
     Garbage { len: usize, kind: u8 },
     /// C04 only: a valid ciphertext with a run of bytes replaced
@@ -135,6 +137,13 @@ impl Fault {
             },
             Fault::Truncate { .. } => "truncate",
             Fault::Extend { .. } => "extend",
+            Fault::Fill { comp, .. } => match comp {
+                Comp::Tag => "fill.tag",
+                Comp::Body => "fill.body",
+                Comp::Nonce => "fill.nonce",
+                Comp::Epk => "fill.epk",
+                Comp::Key => "fill.key",
+            },
             Fault::Garbage { .. } => "garbage",
             Fault::Splice { .. } => "splice",
             Fault::PeerKey { .. } => "peerkey",
@@ -158,6 +167,12 @@ pub struct Config {
 pub enum Event {
     Seal { len: usize, fill: u64 },
     Deliver { slot: usize, fault: Fault },
+    /// A malicious sender whose public key (or sealed-box ephemeral key) is a
+    /// small-order point: the shared secret is all-zero for every recipient, so
+    /// anybody can mint a box that authenticates. Whatever the receiver's
+    /// verdict, it must not crash (C04) and, if it says Err, must not leave the
+    /// forged plaintext in the caller's buffer (C17).
+    ForgedWeakKey { len: usize, fill: u64, point: u8 },
 }
 
 #[derive(Clone, Debug, PartialEq)]
@@ -469,6 +484,38 @@ impl BoxWorld {
                     }
                 }
             },
+            Fault::Fill { comp, value } => match comp {
+                Comp::Tag => {
+                    d.mac = [*value; 16];
+                    d.combined[epk_len..epk_len + 16].fill(*value);
+                }
+                Comp::Body => {
+                    fired = !d.body.is_empty();
+                    d.body.fill(*value);
+                    d.combined[epk_len + 16..].fill(*value);
+                }
+                Comp::Nonce => {
+                    if p.epk.is_some() {
+                        fired = false;
+                    } else {
+                        d.nonce = [*value; 24];
+                    }
+                }
+                Comp::Epk => {
+                    if epk_len == 0 || !rf.combined() {
+                        fired = false;
+                    } else {
+                        d.combined[..32].fill(*value);
+                    }
+                }
+                Comp::Key => {
+                    if rf.uses_symmetric_key(self.cfg.suite) {
+                        d.key = [*value; 32];
+                    } else {
+                        fired = false;
+                    }
+                }
+            },
             Fault::Truncate { k } => {
                 if rf.combined() {
                     let k = (*k).min(d.combined.len());
@@ -739,6 +786,15 @@ impl BoxWorld {
     }
 }
 
+/// The sealed-box nonce, as anybody can compute it: BLAKE2b-192(epk || recipient pk).
+fn crypto_box_seal_nonce_public(nonce: &mut [u8; 24], epk: &[u8; 32], rpk: &[u8; 32]) {
+    use dryoc::classic::crypto_generichash::*;
+    let mut st = crypto_generichash_init(None, 24).expect("gh init");
+    crypto_generichash_update(&mut st, epk);
+    crypto_generichash_update(&mut st, rpk);
+    crypto_generichash_final(st, nonce).expect("gh final");
+}
+
 pub struct C17Obs {
     pub before: Vec<u8>,
     pub after: Vec<u8>,
@@ -823,7 +879,13 @@ impl World for BoxWorld {
                             match rng.below(10) {
                                 0..=3 => Fault::Truncate { k: 1 + rng.usize_below(wire) },
                                 4..=5 => Fault::Garbage { len: rng.usize_below(2 * overhead + 65), kind: rng.below(9) as u8 },
-                                6 => Fault::Extend { k: 1 + rng.usize_below(40), fill: rng.below(256) as u8 },
+                                6 => {
+                                    if rng.chance(1, 2) {
+                                        Fault::Extend { k: 1 + rng.usize_below(40), fill: rng.below(256) as u8 }
+                                    } else {
+                                        Fault::Fill { comp: *rng.pick(&[Comp::Tag, Comp::Body, Comp::Nonce, Comp::Epk, Comp::Key]), value: *rng.pick(&[0x00u8, 0xff, 0x80, 0x01]) }
+                                    }
+                                }
                                 7 => {
                                     if rng.chance(1, 2) {
                                         Fault::Splice { at: rng.usize_below(wire.max(1)), n: 1 + rng.usize_below(20), fill: rng.next_u64() % 1000 }
@@ -840,7 +902,8 @@ impl World for BoxWorld {
                                 8..=10 => Fault::Flip { comp: Comp::Nonce, bit: rng.usize_below(192) },
                                 11..=12 => Fault::Flip { comp: Comp::Epk, bit: rng.usize_below(256) },
                                 13..=14 => Fault::Flip { comp: Comp::Key, bit: rng.usize_below(256) },
-                                15..=17 => Fault::Truncate { k: 1 + rng.usize_below(wire) },
+                                15 => Fault::Fill { comp: *rng.pick(&[Comp::Tag, Comp::Tag, Comp::Body, Comp::Nonce, Comp::Epk, Comp::Key]), value: *rng.pick(&[0x00u8, 0xff, 0x80, 0x01]) },
+                                16..=17 => Fault::Truncate { k: 1 + rng.usize_below(wire) },
                                 _ => Fault::Extend { k: if rng.chance(3, 4) { 1 + rng.usize_below(33) } else { 1 + rng.usize_below(300) }, fill: rng.below(256) as u8 },
                             }
                         };
@@ -849,6 +912,9 @@ impl World for BoxWorld {
                     // faults stop: the genuine tuple must still open
                     plan.push(Event::Deliver { slot, fault: Fault::None });
                 }
+            }
+            if !self.cfg.fault_free && self.cfg.suite != Suite::Secretbox && !self.cfg.rform.uses_symmetric_key(self.cfg.suite) && rng.chance(1, 3) {
+                plan.push(Event::ForgedWeakKey { len: 1 + rng.usize_below(64), fill: rng.next_u64() % 1000, point: rng.below(4) as u8 });
             }
             plan.reverse();
             self.plan = plan;
@@ -866,6 +932,65 @@ impl World for BoxWorld {
                 out.shape(&format!("S{:?}{:?}{}", suite, self.cfg.sform, (*len).min(80)));
                 out.note(&format!("seal len={} ct={}", len, hex(&p.combined()[..p.combined().len().min(48)])));
                 self.packets.push(p);
+            }
+            Event::ForgedWeakKey { len, fill, point } => {
+                if suite == Suite::Secretbox || rf.uses_symmetric_key(suite) {
+                    return;
+                }
+                // small-order u-coordinates: 0, 1, and the two order-8 points
+                let weak: [u8; 32] = match point % 4 {
+                    0 => [0u8; 32],
+                    1 => {
+                        let mut x = [0u8; 32];
+                        x[0] = 1;
+                        x
+                    }
+                    2 => [0xe0, 0xeb, 0x7a, 0x7c, 0x3b, 0x41, 0xb8, 0xae, 0x16, 0x56, 0xe3, 0xfa, 0xf1, 0x9f, 0xc4, 0x6a, 0xda, 0x09, 0x8d, 0xeb, 0x9c, 0x32, 0xb1, 0xfd, 0x86, 0x62, 0x05, 0x16, 0x5f, 0x49, 0xb8, 0x00],
+                    _ => [0x5f, 0x9c, 0x95, 0xbc, 0xa3, 0x50, 0x8c, 0x24, 0xb1, 0xd0, 0xb1, 0x55, 0x9c, 0x83, 0xef, 0x5b, 0x04, 0x44, 0x5c, 0xc4, 0x58, 0x1c, 0x8e, 0x86, 0xd8, 0x22, 0x4e, 0xdd, 0xd0, 0x9f, 0x11, 0x57],
+                };
+                // the forger's key: what *anybody* computes against a small-order point
+                let k0 = crypto_box_beforenm(&weak, &self.a_sk);
+                let plain = pattern(*fill * 4 + 1, *len); // never contains a zero byte
+                let mut nonce = [0u8; 24];
+                let sealed = suite == Suite::Sealed;
+                if sealed {
+                    crypto_box_seal_nonce_public(&mut nonce, &weak, &self.b_pk);
+                } else {
+                    dryoc::rng::copy_randombytes(&mut nonce);
+                }
+                let mut mac = [0u8; 16];
+                let mut body = vec![0u8; *len];
+                crypto_box_detached_afternm(&mut body, &mut mac, &plain, &nonce, &k0);
+                let p = Packet { nonce, mac, body, epk: if sealed { Some(weak) } else { None }, plain: plain.clone() };
+                let d = Delivered { nonce, mac, body: p.body.clone(), combined: p.combined(), key: k0, peer_pk: weak };
+                let (res, obs, _peak, _err) = self.receive(&p, &d);
+                out.op();
+                out.fault("forged.weakkey");
+                out.shape(&format!("F{}", rf.name()));
+                let verdict = match &res {
+                    Ok(Some(_)) => "accept",
+                    Ok(None) => "reject",
+                    Err(_) => "unwind",
+                };
+                out.probe(&format!("forged.weakkey.{}", verdict));
+                out.note(&format!("forged box under small-order key {} len={} -> {}", point % 4, len, verdict));
+                let suite_s = suite_name(suite);
+                if let Err((loc, msg)) = &res {
+                    out.violate("C04", "c04.panic", site(&[("receiver", &format!("{}.{}", suite_s, rf.name())), ("fault", "forged.weakkey"), ("len_class", ">overhead"), ("panic_site", loc)]), format!("receiver unwound on a box forged under a small-order public key: {} at {}", msg, loc));
+                }
+                if let Some(o) = obs {
+                    if !o.ok {
+                        let bad = o.after.iter().zip(o.before.iter()).filter(|(a, b)| a != b && **a != 0).count();
+                        if bad > 0 {
+                            out.violate(
+                                "C17",
+                                "c17.msgbuf",
+                                site(&[("receiver", &format!("{}.{}", suite_s, rf.name())), ("fault", "forged.weakkey")]),
+                                format!("after Err on a box forged under a small-order public key, {} of {} bytes of the caller's message buffer are neither their previous value nor zero", bad, o.after.len()),
+                            );
+                        }
+                    }
+                }
             }
             Event::Deliver { slot, fault } => {
                 if self.packets.is_empty() {
@@ -891,6 +1016,8 @@ impl World for BoxWorld {
                     if p.body.len() <= 64 {
                         out.cell(&format!("{}|{}|{}|{:?}|{}", suite_s, rf.name(), p.body.len(), comp, bit));
                     }
+                } else if let Fault::Fill { comp, value } = fault {
+                    out.cell(&format!("{}|{}|fill|{:?}|{}", suite_s, rf.name(), comp, value));
                 } else if let Fault::Truncate { k } = fault {
                     if p.body.len() <= 64 {
                         out.cell(&format!("{}|{}|{}|trunc|{}", suite_s, rf.name(), p.body.len(), k));
@@ -991,6 +1118,8 @@ impl World for BoxWorld {
 
     fn shrink(ev: &Event) -> Vec<Event> {
         match ev {
+            Event::ForgedWeakKey { len, fill, point } if *len > 1 => vec![Event::ForgedWeakKey { len: 1, fill: *fill, point: *point }, Event::ForgedWeakKey { len: len / 2, fill: *fill, point: *point }],
+            Event::ForgedWeakKey { .. } => Vec::new(),
             Event::Seal { len, fill } => {
                 let mut v = Vec::new();
                 if *len > 0 {
@@ -1040,6 +1169,7 @@ impl World for BoxWorld {
     fn crash_site(cfg: &Config, ev: &Event) -> Site {
         let fk = match ev {
             Event::Deliver { fault, .. } => fault.kind(),
+            Event::ForgedWeakKey { .. } => "forged.weakkey",
             _ => "seal",
         };
         site(&[("receiver", &format!("{}.{}", suite_name(cfg.suite), cfg.rform.name())), ("fault", fk)])
